@@ -20,6 +20,8 @@ import (
 // reader must decode each to the recorded records (PROP-FAIL C02 golden-mismatch otherwise), and
 // the same stream is handed to the Lean specification decoder as an op line.
 func runGoldenMode() {
+	// a valid stream keeps decoding with the current reader whatever its records allocate in total
+	defer arrayRegrowFrameCase("C02")
 	dir := os.Getenv("VERIF_GOLDEN_DIR")
 	if dir == "" {
 		dir = "/verif/corpus/C02"
